@@ -12,7 +12,7 @@ use serde_json::json;
 
 fn decls2() -> Vec<(&'static str, Vec<(String, Dom)>)> {
     let bc = |d: Dom| vec![("b".to_string(), Dom::Bool), ("c".to_string(), Dom::Bool), ("x".to_string(), d)];
-    vec![("x:Real(-3,3)", bc(Dom::Real(-3.0, 3.0))), ("x:NonNeg(0,4)", bc(Dom::NonNegB(0.0, 4.0))), ("x:Int(-2,2)", bc(Dom::Int(-2, 2))), ("x:Real(-1.5,0.5)", bc(Dom::Real(-1.5, 0.5)))]
+    vec![("x:Real(-3,3)", bc(Dom::Real(-3.0, 3.0))), ("x:NonNeg(0,4)", bc(Dom::NonNegB(0.0, 4.0))), ("x:Int(-2,2)", bc(Dom::Int(-2, 2))), ("x:Real(-1.5,0.5)", bc(Dom::Real(-1.5, 0.5))), ("x:Real-unbounded", bc(Dom::Free)), ("x:NonNeg-unbounded", bc(Dom::NonNeg)), ("x:Real(-inf,2)", bc(Dom::Real(f64::NEG_INFINITY, 2.0)))]
 }
 
 fn extra_constraints() -> Vec<(&'static str, Vec<SrcCons>)> {
@@ -22,19 +22,21 @@ fn extra_constraints() -> Vec<(&'static str, Vec<SrcCons>)> {
         ("x>=-1", vec![row(var("x"), Rel::Ge, -1.0)]),
         ("abs{x}>=1", vec![row(Exp::Abs(var("x").to_box()), Rel::Ge, 1.0)]),
         ("x+b<=1.5", vec![row(bin(BinOp::Add, var("x"), var("b")), Rel::Le, 1.5)]),
+        ("max{x,0}>=0.5", vec![row(Exp::Max(vec![var("x"), num(0.0)]), Rel::Ge, 0.5)]),
+        ("min{x,1}<=0.5", vec![row(Exp::Min(vec![var("x"), num(1.0)]), Rel::Le, 0.5)]),
         ("b or c", vec![SrcCons { lhs: Exp::Or(vec![var("b"), var("c")]), rel: Rel::Eq, rhs: num(1.0), bare: true, name: String::new() }]),
     ]
 }
 
 fn family_size(depth: usize, quick: bool) -> u64 {
     let nctx: u64 = (0..=depth as u32).map(|k| (CTX_NAMES.len() as u64 - 1).pow(k)).sum();
-    let (nd, ne) = if quick { (2, 3) } else { (decls2().len() as u64, extra_constraints().len() as u64) };
+    let (nd, ne) = if quick { (3, 3) } else { (decls2().len() as u64, extra_constraints().len() as u64) };
     cores().len() as u64 * nctx * 2 * nd * ne
 }
 
 fn family(i: u64, depth: usize, quick: bool) -> Case {
     let cs = cores();
-    let ds: Vec<_> = if quick { decls2().into_iter().take(3).skip(0).enumerate().filter(|(k, _)| *k != 1).map(|(_, d)| d).collect() } else { decls2() };
+    let ds: Vec<_> = if quick { decls2().into_iter().enumerate().filter(|(k, _)| [0, 2, 4].contains(k)).map(|(_, d)| d).collect() } else { decls2() };
     let es: Vec<_> = if quick { extra_constraints().into_iter().take(3).collect() } else { extra_constraints() };
     let mut d = Digits(i);
     let sense = if d.pick(2) == 0 { Sense::Min } else { Sense::Max };
@@ -159,6 +161,21 @@ fn check_case(case: &Case, l: &mut Local) {
     let minimize = m.sense == Sense::Min;
     let dir = if minimize { "min" } else { "max" };
     let case_json = |env: &Env, what: String| json!({"model": m.show(), "linear": comp.spec.show(), "assignment": env.iter().map(|(k, v)| format!("{k}={v}")).collect::<Vec<_>>(), "what": what, "signature": case.signature});
+    // whole-model status and optimum of the source, collected from the cells (exact when the only
+    // continuous variable is x: the source is affine on every cell and on the two outer rays)
+    let mut src_best: Option<Q> = None;
+    let mut src_unbounded = false;
+    let better_q = |a: &Q, b: &Q| if minimize { a < b } else { a > b };
+    let mut note = |v: Q, best: &mut Option<Q>| {
+        if best.as_ref().map(|b| better_q(&v, b)).unwrap_or(true) {
+            *best = Some(v);
+        }
+    };
+    let x_dom_unbounded = |side_hi: bool| -> bool {
+        let Some(x) = &x else { return false };
+        let (lo, hi) = m.vars.iter().find(|v| &v.0 == x).map(|v| v.1.bounds()).unwrap_or((0.0, 0.0));
+        if side_hi { hi == f64::INFINITY } else { lo == f64::NEG_INFINITY }
+    };
     for d in discrete_assignments(m, x.as_deref(), &grid()) {
         let fixed: Env = d.iter().filter(|(k, _)| in_lm(k)).map(|(k, v)| (k.clone(), v.clone())).collect();
         match &x {
@@ -167,6 +184,7 @@ fn check_case(case: &Case, l: &mut Local) {
                     continue;
                 }
                 let Ok(f) = eval(&m.obj, &d) else { continue };
+                note(f.clone(), &mut src_best);
                 let mut lp = comp.lp_with(&fixed);
                 lp.maximize = !minimize;
                 l.count("cells_checked");
@@ -191,6 +209,8 @@ fn check_case(case: &Case, l: &mut Local) {
                 let mut pts = source_breakpoints(m, x, &d);
                 pts.extend(breakpoints(&m.obj, x, &d));
                 pts.extend(interval_endpoints(&proj));
+                // an anchor, so that a model without any breakpoint still has its two outer rays
+                pts.push(q(0));
                 pts.sort();
                 pts.dedup();
                 let xi = comp.declared.iter().find(|v| &v.0 == x).unwrap().1;
@@ -231,6 +251,19 @@ fn check_case(case: &Case, l: &mut Local) {
                     };
                     let (Some(fp), Some(fq)) = (fv(&p), fv(&qq)) else { continue };
                     let (alpha, beta) = if p == qq { (Q::zero(), fp.clone()) } else { let a = (&fq - &fp) / (&qq - &p); (a.clone(), &fp - &a * &p) };
+                    note(fp.clone(), &mut src_best);
+                    note(fq.clone(), &mut src_best);
+                    // an outer ray of an unbounded declaration on which the objective keeps improving
+                    if let (Some(first), Some(last)) = (pts.first(), pts.last()) {
+                        let improving_up = if minimize { alpha.is_negative() } else { alpha.is_positive() };
+                        let improving_down = if minimize { alpha.is_positive() } else { alpha.is_negative() };
+                        if &p == last && qq > p && x_dom_unbounded(true) && improving_up {
+                            src_unbounded = true;
+                        }
+                        if &qq == first && qq > p && x_dom_unbounded(false) && improving_down {
+                            src_unbounded = true;
+                        }
+                    }
                     // sanity: f is affine on the cell
                     if p != qq {
                         let mid = (&p + &qq) / q(2);
@@ -280,6 +313,16 @@ fn check_case(case: &Case, l: &mut Local) {
         }
     }
     l.count("models_decided");
+    // ---- whole-model statement: same optimal value and the same unbounded / infeasible status
+    if cont.len() <= 1 {
+        let whole = exact::solve_milp(&comp.spec.to_exact());
+        let src = if src_unbounded { "unbounded".to_string() } else { match &src_best { Some(v) => format!("optimal {v}"), None => "infeasible".to_string() } };
+        let lin = match &whole { LpResult::Optimal { value, .. } => format!("optimal {value}"), LpResult::Unbounded => "unbounded".to_string(), LpResult::Infeasible => "infeasible".to_string() };
+        l.count(&format!("whole-model-status:{}", src.split(' ').next().unwrap_or("")));
+        if src != lin {
+            l.violation(format!("C02:whole-model-status-or-optimum-differs:{}", case.signature), format!("source model: {src}; linear model: {lin}"), json!({"model": m.show(), "linear": comp.spec.show(), "source": src, "linear_status": lin, "signature": case.signature}));
+        }
+    }
 }
 
 pub fn run(mut run: Run) -> ! {
@@ -289,7 +332,7 @@ pub fn run(mut run: Run) -> ! {
     let quick = run.quick();
     let depth = if quick { 1 } else { 2 };
     let ncores = cores().len();
-    run.rule = format!("objectives min/max e with e = one of {ncores} cores (abs/min/max nests, logic values in arithmetic) in every chain of <= {depth} contexts from 12, over 4 declaration sets (real, non-negative, integer, asymmetric) x 5 side-constraint sets (incl. a non-convex one and a logic assertion); plus objectives min/max of 14 cores over three variables with different ranges (three-operand min/max, nested blocks) in every context (thorough), with and without a coupling row; for every assignment of the discrete variables and every cell of the region partition of the continuous one the source objective f is affine, and two exact statements are decided: (i) no auxiliary extension of a source-feasible value has a better linear objective than f (one exact MILP per cell), (ii) every source-feasible value has an extension attaining f (interval-union coverage from exact projections); distinct = model text; non-trivial = compiled with at least one auxiliary variable");
+    run.rule = format!("objectives min/max e with e = one of {ncores} cores (abs/min/max nests, logic values in arithmetic) in every chain of <= {depth} contexts from 12, over 7 declaration sets (real, non-negative, integer, asymmetric, and three unbounded or half-bounded ones) x 7 side-constraint sets (incl. a non-convex one, a logic assertion, and rows that need the exact value of a block the objective uses one-sidedly); plus objectives min/max of 14 cores over three variables with different ranges (three-operand min/max, nested blocks) in every context (thorough), with and without a coupling row; for every assignment of the discrete variables and every cell of the region partition of the continuous one the source objective f is affine, and two exact statements are decided: (i) no auxiliary extension of a source-feasible value has a better linear objective than f (one exact MILP per cell), (ii) every source-feasible value has an extension attaining f (interval-union coverage from exact projections); (iii) the whole source model (optimum over all cells, or unbounded along an outer ray of an unbounded declaration, or infeasible) and the whole linear model (exact MILP) have the same status and optimal value; distinct = model text; non-trivial = compiled with at least one auxiliary variable");
     run.assume("exact source semantics and exact MILP/LP on the linear model; the region partition (breakpoints of objective and constraints plus projection endpoints) makes f affine on each cell, which is self-checked at the cell midpoint");
     run.assume("models with non-dyadic constants, or whose continuous variable occurs under a logic operator, are skipped and counted");
     let n = family_size(depth, quick);
